@@ -89,6 +89,9 @@ def run_cases(ctx, cases, prefix, canary=None, only=None):
                 vc._record(nm + "/returns %d tensors" % len(want), "discharged" if ok else "violated", None, None, 0.0, "structural")
                 if ok:
                     for j, (r, w) in enumerate(zip(res, want)):
+                        if isinstance(w, str) and w == "zeros":
+                            rv = G.val_of(r)
+                            w = G.Val(rv.shape, rv.ix, G.ZERO)        # all-zero, whatever its length
                         G.check_eq(vc, nm + "/component %d equals the contract for every shape" % j, r, w)
             else:
                 if res is None or isinstance(res, (tuple, list)):
